@@ -26,7 +26,9 @@ func fifoConfig(s Spec, epoch int64) vnet.Config {
 	cfg.K = vnet.Knobs{Sync: true, FIFO: true, SlowNode: -1, ResetDelayNode: -1}
 	cfg.LatMin = cfg.TPB / time.Duration(pickInt(r, []int{100, 50, 20}))
 	cfg.LatMax = cfg.LatMin
-	if cfg.BaseHeight == 0 {
+	if cfg.BaseHeight == 0 && r.Intn(2) == 0 {
+		// half of the fresh-chain cases stay at ledger height 0 (all timers of the first height are
+		// zero there, DESIGN 5.10: progress is not what this check compares)
 		cfg.BaseHeight = 1
 	}
 	cfg.Roles = make([]vnet.Role, cfg.N)
@@ -150,9 +152,18 @@ func C14(r *ev.Run) {
 		if e2 < lo || e2 > hi {
 			e2 = e1 - d
 		}
-		a := runFifo(s, e1)
-		b := runFifo(s, e2)
-		a2 := runFifo(s, e1)
+		var mods []func(*vnet.Config)
+		if rr.Intn(2) == 0 {
+			// the ledger's last timestamp handed to Start is one fixed instant (behind both clocks) instead of
+			// moving with the epoch: "the same sequence of calls" in the literal sense; nothing the node
+			// does may depend on where its clock stands relative to that constant
+			g := uint64(min(e1, e2)) - uint64(fifoConfig(s, e1).TPB)
+			mods = append(mods, func(c *vnet.Config) { c.GenesisTs = g })
+			r.Count("cases-with-fixed-ledger-timestamp", 1)
+		}
+		a := runFifo(s, e1, mods...)
+		b := runFifo(s, e2, mods...)
+		a2 := runFifo(s, e1, mods...)
 		r.Eval(1)
 		r.Count("executions", 3)
 		if a.aborted != "" || b.aborted != "" || a2.aborted != "" {
@@ -175,6 +186,9 @@ func C14(r *ev.Run) {
 			r.Violation("wall-clock-dependence", "same schedule and same virtual epoch executed twice behaves differently: "+what, wit(what))
 		}
 		r.Count("compared-events", int64(len(a.c.Trace)))
+		if a.c.Cfg.BaseHeight == 0 {
+			r.Count("cases-on-a-fresh-chain", 1)
+		}
 		rtt := false
 		for _, nd := range a.c.Nodes {
 			if nd.D != nil && nd.D.VerifFlags().RTTAvg > 0 {
@@ -214,6 +228,8 @@ func C14(r *ev.Run) {
 	r.Floor("cases-with-change-view", 30)
 	r.Floor("cases-straddling-present", 20)
 	r.Floor("cases-with-sub-second-offset", 50)
+	r.Floor("cases-on-a-fresh-chain", 20)
+	r.Floor("cases-with-fixed-ledger-timestamp", 500)
 }
 
 func head(l []string, n int) []string {
